@@ -22,6 +22,7 @@ Sub-checks (names usable with --only):
 from __future__ import annotations
 
 import itertools
+import json
 import os
 import shutil
 
@@ -42,6 +43,11 @@ def _PW():
 def _P():
     from permuta import Perm
     return Perm
+
+
+def _clear(func):
+    """Empty an lru_cache if the function has one (a refactoring may remove it)."""
+    getattr(func, "cache_clear", lambda: None)()
 
 
 # --------------------------------------------------------------------------------------------
@@ -257,7 +263,7 @@ def avoiding_tree(basis, depth, stop_at_first_deep=False, node_cap=None):
 # per basis: conformance, equivalence, finiteness
 # --------------------------------------------------------------------------------------------
 
-MAXV_PER_BASIS = 3
+MAXV_PER_BASIS = 1
 
 
 def check_basis(part, basis, L, tag, semantic="table", deep=0, full_scratch_verdict=False,
@@ -270,7 +276,7 @@ def check_basis(part, basis, L, tag, semantic="table", deep=0, full_scratch_verd
     B = [Perm(p) for p in basis]
     case0 = {"basis": basis, "L": L, "deep": deep, "full": full_scratch_verdict}
     fresh_dir(tag)
-    PW.load_dfa_for_perm.cache_clear()
+    _clear(PW.load_dfa_for_perm)
     try:
         A = PW.make_dfa_for_basis(list(B))
         PA = to_plain(A)
@@ -336,7 +342,7 @@ def check_basis(part, basis, L, tag, semantic="table", deep=0, full_scratch_verd
     if full_scratch_verdict:
         same("from_pinwords", lambda: PW.make_dfa_for_basis_from_pinwords(list(B)))
     same("db_fresh", lambda: PW.make_dfa_for_basis(list(B), use_db=True))
-    PW.load_dfa_for_perm.cache_clear()
+    _clear(PW.load_dfa_for_perm)
     same("db_from_file", lambda: PW.make_dfa_for_basis_from_db(list(B)))
     same("db_cached", lambda: PW.make_dfa_for_basis_from_db(list(B)))
     if len(B) == 1:
@@ -493,7 +499,13 @@ def check_pinword(part, u, L, use_table=True):
     for n in range(2, L + 1):
         for w in (WORDS[n] if use_table else F.m_words(n)):
             tot += 1
-            if D.accepts_input(w):
+            try:
+                got = D.accepts_input(w)
+            except Exception as exc:  # noqa
+                part.violation("construct", {"pinword": u, "word": w, "route": "make_dfa_for_pinword"},
+                               {"exception": repr(exc)})
+                return
+            if got:
                 acc += 1
                 sem = bool(TABLE[w] & bit) if use_table else F.contains(F.decode_m_word(w), target)
                 if not sem:
@@ -547,7 +559,8 @@ def check_mlang(part, maxlen=6):
 # E2: histories of database / cache operations
 # --------------------------------------------------------------------------------------------
 
-HBASES = [[(0, 1)], [(1, 0), (0, 1)], [(0,)], [(1, 0)]]
+HBASES_QUICK = [[(0, 1)], [(1, 0), (0, 1)], [(0,)]]
+HBASES_SECOND = [[(0, 2, 1)], [(1, 0), (0, 2, 1)], [(1, 0)]]      # thorough: a second, separate model
 
 
 def lib_state():
@@ -578,32 +591,52 @@ def lib_state():
 
 
 class DbHistory:
-    def __init__(self, tag, L):
+    """State = the files under dfa_db/ (names and contents) + what load_dfa_for_perm has cached
+    (+ every other mutable thing of the module, see lib_state).  A history is replayed by
+    restoring the snapshot taken after its longest already executed prefix (files written back,
+    cache cleared and re-filled through load_dfa_for_perm) and executing the remaining operations
+    on the real code; with no snapshot (replay of a recorded case) everything is executed."""
+
+    def __init__(self, tag, L, hbases):
         PW, Perm = _PW(), _P()
         self.tag, self.L = tag, L
-        self.B = [[Perm(p) for p in b] for b in HBASES]
+        self.hbases = [[tuple(p) for p in b] for b in hbases]
+        self.B = [[Perm(p) for p in b] for b in self.hbases]
         fresh_dir(tag + "-ref")
-        PW.load_dfa_for_perm.cache_clear()
+        _clear(PW.load_dfa_for_perm)
         self.ref = [to_plain(PW.make_dfa_for_basis_from_pinwords(list(b))) for b in self.B]
         self.fin = [F.rejected_language_shape(r, F.m_reference())[0] for r in self.ref]
-        self.masks = [mask_of(b) for b in HBASES]
-        nb = len(HBASES)
+        self.masks = [mask_of(b) for b in self.hbases]
+        nb = len(self.hbases)
+        lens = sorted({len(p) for b in self.hbases for p in b if len(p) <= 2})
         self.menu = ([("pw", i) for i in range(nb)] + [("db", i) for i in range(nb)]
-                     + [("fin", i) for i in range(nb)] + [("clear",), ("create", 1), ("create", 2)])
+                     + [("fin", i) for i in range(nb)] + [("clear",)]
+                     + [("create", n) for n in lens])
         self.product_states = 0
+        self.executed = 0
+        self.snap = {(): ((), (), False)}
 
-    def observe(self, op):
-        """Run one operation; return None or a description of what is wrong."""
+    def observe(self, op, cached):
+        """Run one operation; return None or a description of what is wrong.  `cached` is the
+        harness's record of what the two lru caches hold: permutations in load_dfa_for_perm and
+        the marker "M" for make_dfa_for_m."""
         PW = _PW()
+        self.executed += 1
         kind = op[0]
         if kind == "clear":
-            PW.load_dfa_for_perm.cache_clear()
+            _clear(PW.load_dfa_for_perm)
+            keep_m = "M" in cached
+            cached.clear()
+            if keep_m:
+                cached.add("M")
             return None
         if kind == "create":
             PW.create_dfa_db_for_length(op[1])
             return None
         i = op[1]
         if kind == "fin":
+            cached.update(self.hbases[i])
+            cached.add("M")
             got = PW.has_finite_pinperms(list(self.B[i]), use_db=True)
             if got is not self.fin[i]:
                 return {"op": op, "expected": self.fin[i], "got": got}
@@ -611,6 +644,7 @@ class DbHistory:
         if kind == "pw":
             D = PW.make_dfa_for_basis_from_pinwords(list(self.B[i]))
         else:
+            cached.update(self.hbases[i])
             D = PW.make_dfa_for_basis_from_db(list(self.B[i]))
         PD = to_plain(D)
         for n in range(2, self.L + 1):
@@ -624,45 +658,72 @@ class DbHistory:
             return {"op": op, "shortest_word_distinguishing_from_fresh_automaton": word}
         return None
 
-    def build(self, hist):
-        PW = _PW()
-        d = fresh_dir(self.tag)
-        PW.load_dfa_for_perm.cache_clear()
-        viols = []
-        last = len(hist) - 1
-        for hi, op in enumerate(hist):
-            op = tuple(op)
-            try:
-                v = self.observe(op)
-            except Exception as exc:  # noqa
-                v = {"op": op, "exception": repr(exc)}
-            if v is not None and hi == last:
-                viols.append(v)
+    def read_files(self, d):
         files = []
         for root, _, names in os.walk(d):
             for nm in sorted(names):
                 p = os.path.join(root, nm)
                 with open(p) as fh:
                     files.append((os.path.relpath(p, d), fh.read()))
-        canon = (tuple(sorted(files)), lib_state())
+        return tuple(sorted(files))
+
+    def build(self, hist):
+        PW, Perm = _PW(), _P()
+        hist = tuple(tuple(op) for op in hist)
+        k = len(hist)
+        while hist[:k] not in self.snap:
+            k -= 1
+        files, cached, _ = self.snap[hist[:k]]
+        d = fresh_dir(self.tag)
+        for rel, content in files:
+            os.makedirs(os.path.dirname(os.path.join(d, rel)), exist_ok=True)
+            with open(os.path.join(d, rel), "w") as fh:
+                fh.write(content)
+        _clear(PW.load_dfa_for_perm)
+        _clear(PW.make_dfa_for_m)
+        for p in cached:
+            if p == "M":
+                PW.make_dfa_for_m()
+            else:
+                PW.load_dfa_for_perm(Perm(p))
+        cached = set(cached)
+        viols = []
+        last = len(hist) - 1
+        for hi in range(k, len(hist)):
+            op = hist[hi]
+            try:
+                v = self.observe(op, cached)
+            except Exception as exc:  # noqa
+                v = {"op": op, "exception": repr(exc)}
+            if v is not None and hi == last:
+                viols.append(v)
+            self.snap[hist[:hi + 1]] = (self.read_files(d), tuple(sorted(cached, key=repr)), None)
+        canon = (self.read_files(d), tuple(sorted(cached, key=repr)), lib_state())
         return canon, viols
 
 
 def shard_history(shard):
-    idx, initial, depth, L = shard
+    mi, depth, L, hbases = shard
     part = Partial()
-    model = DbHistory("h%d" % idx, L)
+    try:
+        model = DbHistory("hist%d" % mi, L, hbases)
+    except Exception as exc:  # noqa
+        part.violation("construct", {"route": "history-reference", "bases": hbases, "L": L},
+                       {"exception": repr(exc)})
+        return part, ("history", 0, 0, [])
 
     def on_violation(hist, v):
-        part.violation("history", {"history": [list(op) for op in hist], "L": L}, v)
+        part.violation("history", {"history": [list(op) for op in hist], "L": L,
+                                   "bases": model.hbases}, v)
 
-    st = bfs([initial], model.menu, model.build, depth, on_violation)
+    st = bfs([()], model.menu, model.build, depth, on_violation)
     part.add(st.transitions, st.transitions)
     part.bump("history_states", st.states)
     part.bump("history_transitions", st.transitions)
     part.bump("product_states", model.product_states)
-    part.sample({"history": st.sample_histories[-1] if st.sample_histories else []}, cap=1)
-    return part, (st.states, st.transitions)
+    part.sample({"history": st.sample_histories[-1] if st.sample_histories else [],
+                 "new_states_per_depth": st.per_depth}, cap=1)
+    return part, ("history", st.states, st.transitions, st.per_depth)
 
 
 # --------------------------------------------------------------------------------------------
@@ -772,10 +833,10 @@ def run(ctx, only=None):
     ]
     bases, longs = pool(quick)
     if quick:
-        klen = {4: 11, 5: 10, 6: 0}
+        klen = {4: 12, 5: 11, 6: 0}
         deep = 0
     else:
-        klen = {4: 13, 5: 12, 6: 11}
+        klen = {4: 14, 5: 12, 6: 11}
         deep = 20
     L = max(klen.values())
     PW = _PW()
@@ -792,14 +853,37 @@ def run(ctx, only=None):
         ctx.bounds["mlang"] = "all words over ULDR of length <= 6; exact product BFS"
         ctx.section("mlang")
 
+    # one pool of heterogeneous shards: the slow automaton constructions balance better; cheap
+    # shards first (ctx.pmap rotates the order by the seed: small seeds move the first shards last)
+    tasks = []
+    if want("pinword"):
+        maxu = 3 if quick else 4
+        Lu = 9 if quick else 10
+        words = [u for n in range(1, maxu + 1) for u in ref_pinwords(n)]
+        per = 20 if quick else 40
+        for i in range(0, len(words), per):
+            tasks.append(("pinwords", (words[i:i + per], Lu)))
+        ctx.bounds["pinword"] = {"pin_words": len(words), "max_pinword_length": maxu,
+                                 "M_word_lengths": "2..%d" % Lu}
+    if want("history"):
+        depth = 8 if quick else 10
+        models = [HBASES_QUICK] if quick else [HBASES_QUICK, HBASES_SECOND]
+        for mi, hb in enumerate(models):
+            tasks.append(("history", (mi, depth, 7, hb)))
+        ctx.bounds["history"] = {"max_depth": depth, "models": models,
+                                 "initial": "empty directory, empty caches",
+                                 "operations": ["from_pinwords", "from_db", "has_finite_pinperms(use_db)",
+                                                "cache_clear", "create_dfa_db_for_length(1|2)"],
+                                 "new_states_per_depth": []}
     if want("conform"):
-        shards = []
-        for i, b in enumerate(bases):
+        # the few slow ones (patterns of length >= 5) first, the rest simplest first
+        order = sorted(range(len(bases)), key=lambda i: (max(len(p) for p in bases[i]) < 5, i))
+        for i in order:
+            b = bases[i]
             k = max(len(p) for p in b)
             Lb = klen[max(k, 4)]
             full = quick and k <= 3 or not quick and (k <= 3 or len(b) == 1 and k <= 4)
-            shards.append((i, b, Lb, deep if k <= 4 else 0, bool(full)))
-        ctx.pmap(shard_basis, shards)
+            tasks.append(("basis", (i, b, Lb, deep if k <= 4 else 0, bool(full))))
         ctx.bounds["conform"] = {
             "bases": len(bases),
             "pool": "all single patterns of length 0..4; all pairs of length 1..3; pairs with a "
@@ -813,35 +897,36 @@ def run(ctx, only=None):
                        "use_db fresh / from file / cached", "make_dfa_for_perm",
                        "own union of load_dfa_for_perm"],
         }
-        ctx.section("conform", bases=len(bases), evaluations=ctx.evals)
-
-    if want("pinword"):
-        maxu = 3 if quick else 4
-        Lu = 9 if quick else 10
-        words = [u for n in range(1, maxu + 1) for u in ref_pinwords(n)]
-        per = 20 if quick else 40
-        shards = [(words[i:i + per], Lu) for i in range(0, len(words), per)]
-        ctx.pmap(shard_pinwords, shards)
-        ctx.bounds["pinword"] = {"pin_words": len(words), "max_pinword_length": maxu,
-                                 "M_word_lengths": "2..%d" % Lu}
-        ctx.section("pinword", pin_words=len(words))
-
     hs = ht = 0
-    if want("history"):
-        depth = 3 if quick else 4
-        initials = [(), (("create", 2),), (("db", 1),), (("db", 0), ("clear",))]
-        res = ctx.pmap(shard_history, [(i, h, depth, 7) for i, h in enumerate(initials)])
-        hs = sum(r[0] for r in res)
-        ht = sum(r[1] for r in res)
-        ctx.bounds["history"] = {"depth": depth, "bases": HBASES, "initial_histories": initials,
-                                 "operations": ["from_pinwords", "from_db", "has_finite_pinperms(use_db)",
-                                                "cache_clear", "create_dfa_db_for_length(1|2)"]}
-        ctx.section("history", states=hs, transitions=ht)
+    if tasks:
+        for res in ctx.pmap(shard_any, tasks):
+            if res is not None and res[0] == "history":
+                hs += res[1]
+                ht += res[2]
+                ctx.bounds["history"]["new_states_per_depth"].append(res[3])
+                if res[3] and res[3][-1] != 0:
+                    ctx.cap("history search stopped at depth %d before closure" % depth)
+        # report the smallest case of every kind first
+        ctx.viols.sort(key=lambda v: (len(json.dumps(v["case"].get("basis", v["case"]))),
+                                      len(json.dumps(v["case"]))))
+        ctx.section("automata", tasks=len(tasks), bases=len(bases) if want("conform") else 0,
+                    history_states=hs, history_transitions=ht)
 
     ps = ctx.counters.get("product_states", 0) + states
     ctx.states = ps + hs + ctx.counters.get("dfa_states", 0)
     ctx.transitions = 4 * ps + ht + 4 * ctx.counters.get("dfa_states", 0)
     ctx.traces = ctx.counters.get("traces", 0) + ht
+
+
+def shard_any(task):
+    kind, payload = task
+    if kind == "basis":
+        return shard_basis(payload)
+    if kind == "pinwords":
+        return shard_pinwords(payload)
+    if kind == "history":
+        return shard_history(payload)
+    raise ValueError(kind)
 
 
 # --------------------------------------------------------------------------------------------
@@ -868,6 +953,11 @@ def replay(ctx, rec):
             return
         # equivalence / finiteness / construction: the table-free version of the whole block
         replay_basis(ctx, basis, L, case, sub)
+    elif sub == "construct" and case.get("route") == "history-reference":
+        try:
+            DbHistory("replay", 2, case["bases"])
+        except Exception as exc:  # noqa
+            ctx.violation("construct", case, {"exception": repr(exc)})
     elif sub == "pinword" or (sub == "construct" and "pinword" in case):
         PW = _PW()
         u = case["pinword"]
@@ -877,24 +967,31 @@ def replay(ctx, rec):
             ctx.violation("construct", case, {"exception": repr(exc)})
             return
         w = case.get("word")
-        if w is not None and D.accepts_input(w) and \
-                not F.contains(F.decode_m_word(w), F.decode_pinword(u)):
+        if w is None:
+            return
+        try:
+            got = D.accepts_input(w)
+        except Exception as exc:  # noqa
+            ctx.violation("construct", case, {"exception": repr(exc)})
+            return
+        if got and not F.contains(F.decode_m_word(w), F.decode_pinword(u)):
             ctx.violation("pinword", case, {"what": "accepted without containment"})
     elif sub == "mlang" or (sub == "construct" and case.get("route") == "make_dfa_for_m"):
         check_mlang(ctx)
     elif sub == "history":
+        L = case.get("L", 7)
         setup_bits([])
         KLEN.clear()
-        KLEN.update({4: case.get("L", 7)})
-        L = case.get("L", 7)
+        KLEN.update({4: L})
         TABLE.clear()
         for w, (st, m) in table_prefixes(L).items():
             TABLE[w] = m
         for n in range(2, L + 1):
             WORDS[n] = F.m_words(n)
-        model = DbHistory("replay", L)
+        model = DbHistory("replay", L, case.get("bases", HBASES_QUICK))
         hist = tuple(tuple(op) for op in case["history"])
         for i in range(1, len(hist) + 1):
+            model.snap = {(): ((), (), False)}
             _, viols = model.build(hist[:i])
             if viols:
                 ctx.violation("history", case, viols[0])
